@@ -604,7 +604,10 @@ pub fn run_c10(ctx: &Ctx) -> Outcome {
             Err(e) => out.inconclusive = Some(e),
             Ok(cli) => {
                 let n = ctx.n(160, 2400) as usize;
-                let items: Vec<(usize, crate::props::frontends::CliCase)> = crate::props::frontends::materialise(&crate::props::frontends::cli_strategy(false), ctx.seed, 101, n)
+                // direct invocations and invocations through the action wrapper script
+                let mut cli_cases = crate::props::frontends::materialise(&crate::props::frontends::cli_strategy(false), ctx.seed, 101, n);
+                cli_cases.extend(crate::props::frontends::materialise(&crate::props::frontends::cli_strategy(true), ctx.seed, 102, n / 2));
+                let items: Vec<(usize, crate::props::frontends::CliCase)> = cli_cases
                     .into_iter()
                     .map(|mut c| {
                         // protocols where the opcodes exist, so that a wrongly forwarded flag shows
@@ -614,6 +617,7 @@ pub fn run_c10(ctx: &Ctx) -> Outcome {
                         if let crate::props::frontends::Mode::Batch { fault_at, .. } = &mut c.mode {
                             *fault_at = None;
                         }
+                        c.fault_devfull = false;
                         c
                     })
                     .enumerate()
@@ -843,9 +847,20 @@ pub fn history_shards(ctx: &Ctx, out: &mut Outcome, cases_per_shard: u64) {
         return;
     }
     let exe = util::self_exe();
+    // half of the shards run a build WITHOUT debug assertions and overflow checks (what `cargo build
+    // --release` users get): code whose behaviour differs between the two kinds of build - a side effect
+    // inside debug_assert!, arithmetic that wraps instead of panicking - is exercised in both
+    let plain = match build_plain_harness(ctx) {
+        Ok(p) => p,
+        Err(e) => {
+            out.inconclusive = Some(e);
+            return;
+        }
+    };
     let children: Vec<_> = (0u8..=5)
         .rev()
         .map(|p| {
+            let exe: std::path::PathBuf = if p % 2 == 0 { std::path::PathBuf::from(&plain) } else { exe.clone() };
             (
                 p,
                 std::process::Command::new(&exe)
@@ -880,7 +895,12 @@ pub fn history_shards(ctx: &Ctx, out: &mut Outcome, cases_per_shard: u64) {
             if out.violation.is_none() {
                 let mut f = Fail::new(
                     viol["sig"].as_str().unwrap_or("?"),
-                    format!("[fresh process whose first generations used protocol {} with all opt-in features on] {}", p, viol["msg"].as_str().unwrap_or("?")),
+                    format!(
+                        "[fresh process{} whose first generations used protocol {} with all opt-in features on] {}",
+                        if p % 2 == 0 { " of the build without debug assertions" } else { "" },
+                        p,
+                        viol["msg"].as_str().unwrap_or("?")
+                    ),
                 );
                 f.output = viol["output"].as_str().and_then(util::unhex);
                 out.violation = Some(Violation { fail: f, case: json!({"shard": {"first_protocol": p, "case": viol["case"]}}) });
@@ -888,13 +908,13 @@ pub fn history_shards(ctx: &Ctx, out: &mut Outcome, cases_per_shard: u64) {
         }
     }
     out.stats.evaluations += total;
-    out.stats.add("process-history shards: cases judged in 6 fresh processes primed with protocol 5..0", total);
+    out.stats.add("process-history shards: cases judged in 6 fresh processes primed with protocol 5..0 (protocols 4, 2, 0: build without debug assertions)", total);
     out.rule.push_str(
         " Generated cases also vary the reuse history (0-2 earlier generation calls on the same generator, optionally taking the public \
          output buffer in between), the choice among equivalent public API entry points (with_opcode_range vs with_min/max_opcodes vs public \
          fields; with_mutators vs with_mutator; setters restating defaults omitted) and with_buffer_size. Process-history shards: six fresh \
          child processes whose first generations use protocol 5,4,..,0 with all opt-in features on, each followed by a batch of ordinary cases \
-         under the same oracle.",
+         under the same oracle; the shards for protocols 4, 2 and 0 run a build without debug assertions / overflow checks.",
     );
 }
 
@@ -933,7 +953,8 @@ pub fn replay_shard(ctx: &Ctx, sh: &serde_json::Value) -> Result<(), Fail> {
     let p = sh["first_protocol"].as_u64().unwrap_or(5) as u8;
     let path = format!("{}/work/shard-one-{}.json", ctx.verif_dir, std::process::id());
     std::fs::write(&path, serde_json::to_vec(&sh["case"]).unwrap()).map_err(|e| Fail::new("harness:io", e.to_string()))?;
-    let o = std::process::Command::new(util::self_exe())
+    let exe: std::path::PathBuf = if p % 2 == 0 { std::path::PathBuf::from(build_plain_harness(ctx).map_err(|e| Fail::new("harness:build", e))?) } else { util::self_exe() };
+    let o = std::process::Command::new(exe)
         .args(["shard-one", &ctx.prop, &p.to_string(), &path])
         .env("VERIF_DIR", &ctx.verif_dir)
         .env("VERIF_REPO", &ctx.repo_dir)
@@ -950,4 +971,19 @@ pub fn replay_shard(ctx: &Ctx, sh: &serde_json::Value) -> Result<(), Fail> {
         }
         _ => Err(Fail::new("harness:shard", "shard-one child failed")),
     }
+}
+
+/// build the harness (and the repository crate) in the `plainrel` profile: optimised, no debug
+/// assertions, no overflow checks - cargo's plain `--release` semantics
+pub fn build_plain_harness(ctx: &Ctx) -> Result<String, String> {
+    let out = std::process::Command::new("cargo")
+        .args(["build", "--offline", "--profile", "plainrel", "--bin", "pfverif"])
+        .current_dir(format!("{}/harness", ctx.verif_dir))
+        .env("CARGO_NET_OFFLINE", "true")
+        .output()
+        .map_err(|e| format!("cargo: {}", e))?;
+    if !out.status.success() {
+        return Err(format!("building the plain-release harness failed: {}", String::from_utf8_lossy(&out.stderr).lines().rev().take(10).collect::<Vec<_>>().join(" | ")));
+    }
+    Ok(format!("{}/target/harness/plainrel/pfverif", ctx.verif_dir))
 }
